@@ -71,3 +71,26 @@ Proof.
   unfold klm_th1, klm_th2, klm_theta1_turns, klm_theta2_turns, Q2R; cbn [Qnum Qden].
   split; interval with (i_prec 80).
 Qed.
+
+(* non-vacuity of klm_cz_exact: real numbers with these relations exist (first-quadrant angles) *)
+Lemma klm_exact_angles_exist : exists c1 s1 c2 s2 r2 r3 r6 : R,
+  r2 * r2 = 2 /\ r3 * r3 = 3 /\ r6 = r2 * r3 /\
+  3 * (c1 * c1) = 1 /\ 3 * (s1 * s1) = 2 /\ 3 * (c1 * s1) = r2 /\
+  6 * (c2 * c2) = 3 + r6 /\ 6 * (s2 * s2) = 3 - r6 /\ 6 * (c2 * s2) = r3 /\
+  0 < c1 /\ 0 < s1 /\ 0 < c2 /\ 0 < s2.
+Proof.
+  set (r2 := sqrt 2). set (r3 := sqrt 3). set (r6 := r2 * r3).
+  assert (H2 : r2 * r2 = 2) by (apply sqrt_sqrt; lra).
+  assert (H3 : r3 * r3 = 3) by (apply sqrt_sqrt; lra).
+  assert (P2 : 0 < r2) by (apply sqrt_lt_R0; lra).
+  assert (P3 : 0 < r3) by (apply sqrt_lt_R0; lra).
+  assert (P6 : 0 < r6) by (apply Rmult_lt_0_compat; assumption).
+  assert (H6 : r6 * r6 = 6) by (unfold r6; nra).
+  set (c2 := sqrt ((3 + r6) / 6)).
+  assert (Hc2 : c2 * c2 = (3 + r6) / 6) by (apply sqrt_sqrt; lra).
+  assert (Pc2 : 0 < c2) by (apply sqrt_lt_R0; lra).
+  exists (r3 / 3), (r6 / 3), c2, (r3 / (6 * c2)), r2, r3, r6.
+  assert (Hs2 : 6 * (c2 * (r3 / (6 * c2))) = r3) by (field; lra).
+  repeat split; try assumption; try reflexivity; try nra.
+  transitivity (r2 * (r3 * r3) / 3); [unfold r6; field | rewrite H3; field].
+Qed.
